@@ -265,6 +265,10 @@ func scenarios(o *h.Opts, rnd *h.Rand) []*scen {
 
 	// ---- handler crashes, one server each
 	add("findservers-no-endpoints", srvx.ChildSpec{NoSecurity: true}, func(s *scen, e *srvx.Episode) {
+		if e.NoChannel {
+			s.oracleOnly(e, "a server without enabled security accepts no channel: FindServers cannot be reached", srvx.Result{Class: "no-channel"})
+			return
+		}
 		e.Do("missing", "getendpoints", &ua.GetEndpointsRequest{EndpointURL: "x"}, "")
 		e.Do("missing", "findservers", &ua.FindServersRequest{}, "server without EnableSecurity")
 	})
@@ -597,7 +601,7 @@ func evaluate(r *h.Result, d *h.Driver, s *scen) {
 		}
 	}
 	// liveness at the end of a scenario that did not kill the server
-	if !e.Dead && e.Infra == "" {
+	if !e.Dead && e.Infra == "" && !e.NoChannel {
 		r.Count("canary "+s.name, false)
 		if s.canaryErr != "" {
 			r.Fail("scen="+s.name+" canary", "", fmt.Sprintf("server alive but the canary client was not answered within %v: %s", canaryBound, s.canaryErr))
@@ -657,7 +661,7 @@ func main() {
 				return
 			}
 			s.run(s, s.ep)
-			if !s.ep.Dead && s.ep.Infra == "" {
+			if !s.ep.Dead && s.ep.Infra == "" && !s.ep.NoChannel {
 				if s.ep.Child.WaitExit(300 * time.Millisecond) {
 					s.ep.Dead = true
 					site, msg := s.ep.Child.CrashSite()
